@@ -330,7 +330,8 @@ func visitInstr(fr *frame, instr ssa.Instruction) continuation {
 			panic(rtError("makeslice: len out of range"))
 		}
 		if cp > 1<<24 {
-			panic(unsupported("makeslice with huge capacity"))
+			// treated as a target failure candidate: the native replay decides what really happens
+			panic(rtError(fmt.Sprintf("makeslice: allocation of %d elements (gosym treats more than 2^24 as a failure)", cp)))
 		}
 		slice := make([]value, cp)
 		tElt := instr.Type().Underlying().(*types.Slice).Elem()
@@ -540,6 +541,14 @@ func callSSA(i *interpreter, caller *frame, callpos token.Pos, fn *ssa.Function,
 			return r
 		}
 	}
+	return runSSAEnv(fr, args, env)
+}
+
+// runSSA interprets the body of fr.fn (used by intrinsic wrappers that fall back to the real code).
+func runSSA(fr *frame, args []value) value { return runSSAEnv(fr, args, nil) }
+
+func runSSAEnv(fr *frame, args []value, env []value) value {
+	i, fn := fr.i, fr.fn
 	if fn.Blocks == nil {
 		panic(unsupported("no code for function: " + fn.String()))
 	}
@@ -606,6 +615,9 @@ func runFrame(fr *frame) {
 		}
 		r := recover()
 		if _, isEng := r.(enginePanic); isEng {
+			if _, isU := r.(unsupported); isU && unsupStack == "" {
+				unsupStack = targetStack(fr)
+			}
 			panic(r)
 		}
 		if re, isRT := r.(runtime.Error); isRT {
